@@ -63,7 +63,8 @@ theorem CMS.addLoop_unclamped (ps : List (Nat × Int)) (bins acc : List Int)
       have hv := h (k, v) (by simp)
       have h1 : Gen.cmsAddClampCmp.evalInt v Gen.int32Max = false := by
         simp only [Gen.cmsAddClampCmp, Cmp.evalInt, decide_eq_false_iff_not]; omega
-      have h2 : ¬ v < Gen.int32Min := by omega
+      have h2 : ¬ v < (-2147483648 : Int) := by
+        have := hv.1; simp only [Gen.int32Min] at this; omega
       obtain ⟨vals, hvals⟩ := ih (bins.set k v) (v :: acc) (fun q hq => h q (by simp [hq]))
       refine ⟨vals, ?_⟩
       rw [CMS.addLoop]
